@@ -9,8 +9,10 @@ use parking_lot::{Mutex, RwLock};
 use rand::seq::SliceRandom;
 use rand::thread_rng;
 use regex::Regex;
+use std::collections::hash_map::DefaultHasher;
 use std::collections::HashMap;
 use std::fmt::{Display, Formatter};
+use std::hash::{Hash, Hasher};
 use std::num::NonZeroUsize;
 use std::sync::atomic::AtomicU64;
 use std::sync::{
@@ -316,7 +318,22 @@ impl ConnectionPool {
         let mut address_id: usize = 0;
 
         for (pool_name, pool_config) in &config.pools {
-            let new_pool_hash_value = pool_config.hash_value();
+            // What identifies the definition of a pool: its own section, and the general settings
+            // its connections, its ban list and its plugins are built from. A reload that changes
+            // one of those has to rebuild the pool like one that changes the section.
+            let new_pool_hash_value = {
+                let mut hasher = DefaultHasher::new();
+                pool_config.hash_value().hash(&mut hasher);
+                config.plugins.hash(&mut hasher);
+                config.general.connect_timeout.hash(&mut hasher);
+                config.general.idle_timeout.hash(&mut hasher);
+                config.general.server_lifetime.hash(&mut hasher);
+                config.general.server_round_robin.hash(&mut hasher);
+                config.general.healthcheck_delay.hash(&mut hasher);
+                config.general.healthcheck_timeout.hash(&mut hasher);
+                config.general.ban_time.hash(&mut hasher);
+                hasher.finish()
+            };
 
             // There is one pool per database/user pair.
             for user in pool_config.users.values() {
